@@ -171,7 +171,9 @@ impl PruneSpec {
             keep_pack_h: if r.chance(1, 5) { 1 } else { 0 },
             keep_delete_h: if r.chance(1, 2) { 0 } else { 1 },
             instant_delete: instant,
-            early_delete_index: false,
+            // alone it is documented to do nothing; together with instant-delete it is the documented-unsafe
+            // combination, which only matters for interruptions (C03 builds its own specs)
+            early_delete_index: r.chance(1, 5),
             fast_repack: r.chance(1, 3),
             repack_all: r.chance(1, 4),
             repack_uncompressed: v2 && r.chance(1, 5),
